@@ -3375,9 +3375,14 @@ class QuicConnection:
 
         scratch = Buffer(capacity=32 + 16 * len(space.ack_queue))
         push_ack_frame(scratch, space.ack_queue, ack_delay_encoded)
+        capacity = max(ACK_FRAME_CAPACITY, 1 + scratch.tell())
+        if not builder.packet_is_empty and builder.remaining_buffer_space < capacity:
+            # the frames for the oldest ranges have filled the packet: the ACK
+            # timer stays armed, the newest ranges go into the next packet
+            return
         buf = builder.start_frame(
             QuicFrameType.ACK,
-            capacity=max(ACK_FRAME_CAPACITY, 1 + scratch.tell()),
+            capacity=capacity,
             handler=self._on_ack_delivery,
             handler_args=(space, space.largest_received_packet),
         )
